@@ -23,6 +23,11 @@ ASSUMPTIONS = [
     "actor restart: the MicrogridApiSource (subscriptions, API receivers, handler tasks) belongs to the DataSourcingActor object and "
     "survives every re-entry of _run() after an unhandled exception (model: Restart and AddFault change nothing; the request whose "
     "handling raised is dropped); API-client failures during a handler (re)start only delay that start (HandlerFail, run_forever retry)",
+    "the API client's stream-opening call (<category>_data) may stay pending for any number of loop iterations / any time (model: "
+    "HOpening); assumed about the client: a cancelled opening call leaves nothing behind (the receiver is created when the call "
+    "returns, as in frequenz-client-microgrid) and cancelling a handler inside the call does not affect the call its replacement makes",
+    "liveness is judged at quiescence only: after all injected delays, retries and restarts have elapsed the API sends one more message "
+    "per component, which every stream subscribed by then must receive",
     "a send() on a channel its consumer closed (ChannelRegistry.close_and_remove) raises in its own send task only: all send tasks of a "
     "fan-out run their first step before the TaskGroup aborts (FIFO), so st_out logs every entered send and the reader of a closed "
     "channel holds a prefix of its sends",
@@ -43,7 +48,8 @@ META = {
                   "replaying recorded traces of the real classes (all four data categories, direct and via the actor, subscriptions "
                   "before / between / back-to-back with messages; API-client faults making the real actor restart after RESTART_DELAY or a "
                   "handler start fail, with served requests repeated during/after the restart; consumers closing one of several channels "
-                  "of a component at every position in subscription order) and by an independent oracle on sent-vs-received samples.",
+                  "of a component at every position in subscription order; stream-opening API calls that stay pending 0-8 loop "
+                  "iterations or virtual time while further requests and messages arrive, cancelling the handler inside the call) and by an independent oracle on sent-vs-received samples.",
     "level_note": "Partial by nature: FIFO task execution, non-suspending Broadcast.send, cancellation semantics and the surviving API "
                   "receiver are runtime assumptions exercised by the trace runs, not proved; receiver overflow excluded. Events are "
                   "recorded by tapping public boundaries (add_metric / _handle_data_stream wrappers, ChannelRegistry subclass, "
